@@ -151,6 +151,7 @@ type unaryRpcArgs struct {
 type streamHandler struct {
 	ch     chan *goatorepo.Rpc
 	done   chan struct{}
+	ctx    context.Context
 	cancel context.CancelFunc
 }
 
@@ -443,6 +444,10 @@ func (h *handler) processStreamingRpc(
 		} else {
 			select {
 			case handler.ch <- rpc:
+			case <-handler.ctx.Done():
+				// The handler has returned (or its caller is gone): nobody will
+				// read this envelope. Blocking here would hold h.mu, which the
+				// stream's own unregistration needs.
 			case <-clientCtx.Done():
 				return clientCtx.Err()
 			case <-h.ctx.Done():
@@ -483,6 +488,7 @@ func (h *handler) processStreamingRpc(
 	h.streams[streamId] = streamHandler{
 		ch:     make(chan *goatorepo.Rpc, 1),
 		done:   make(chan struct{}, 1),
+		ctx:    ctx,
 		cancel: cancel,
 	}
 	vEmit("srv.reg", h, streamId, len(h.streams), "")
